@@ -418,12 +418,17 @@ class CustomSD(BaseCorrelations):
                 tmp_temperature))
         self.temperature = tmp_temperature
 
-        self._cutoff_function = \
-            lambda omega: CUTOFF_DICT[self.cutoff_type](omega, self.cutoff)
-        self._spectral_density = \
-            lambda omega: self.j_function(omega) * self._cutoff_function(omega)
-
         super().__init__(name, description)
+
+    def _cutoff_function(self, omega: ArrayLike) -> ArrayLike:
+        """The cutoff function for the current cutoff and cutoff type. """
+        return CUTOFF_DICT[self.cutoff_type](omega, self.cutoff)
+
+    def _spectral_density(self, omega: ArrayLike) -> ArrayLike:
+        """The spectral density for the current attributes of this object
+        (a method, such that a copy of the object does not keep reading the
+        attributes of the object it was copied from). """
+        return self.j_function(omega) * self._cutoff_function(omega)
 
     def __str__(self) -> Text:
         ret = []
@@ -774,6 +779,18 @@ class PowerLawSD(CustomSD):
                          temperature=temperature,
                          name=name,
                          description=description)
+
+    def __copy__(self) -> 'PowerLawSD':
+        """A copy is an independent object with the current parameters (the
+        `j_function` of a plain attribute-wise copy would keep reading the
+        parameters of the original). """
+        return PowerLawSD(alpha=self.alpha,
+                          zeta=self.zeta,
+                          cutoff=self.cutoff,
+                          cutoff_type=self.cutoff_type,
+                          temperature=self.temperature,
+                          name=self.name,
+                          description=self.description)
 
     def __str__(self) -> Text:
         ret = []
